@@ -46,6 +46,8 @@ pub struct BTcp {
     pub urg: Option<u16>,
     pub ece: bool,
     pub cwr: bool,
+    /// options set by an earlier call: a later `.options()` / `.options_raw()` call must replace them
+    pub pre_options: Option<Vec<TcpOptionElement>>,
     pub options: Option<Vec<TcpOptionElement>>,
     pub options_raw: Option<Vec<u8>>,
 }
@@ -233,6 +235,12 @@ fn transport(step: PacketBuilderStep<IpHeaders>, tr: &BTr, out: Out, payload: &[
             }
             if t.cwr {
                 s = s.cwr();
+            }
+            if let Some(o) = &t.pre_options {
+                s = match s.options(o) {
+                    Ok(s) => s,
+                    Err(e) => return BResult::ConfigErr(format!("{:?}", e)),
+                };
             }
             if let Some(o) = &t.options {
                 s = match s.options(o) {
@@ -493,9 +501,21 @@ pub fn rand_conf(rng: &mut Prng) -> BConf {
                     urg: if rng.chance(1, 4) { Some(rng.u16_corner()) } else { None },
                     ece: rng.chance(1, 4),
                     cwr: rng.chance(1, 4),
+                    pre_options: None,
                     options: None,
                     options_raw: None,
                 };
+                if rng.chance(1, 4) {
+                    // an earlier call with other options; what is configured last is what counts
+                    let mut pre = rand_tcp_elements(rng);
+                    if pre.is_empty() {
+                        pre.push(TcpOptionElement::MaximumSegmentSize(rng.u16_corner()));
+                    }
+                    t.pre_options = Some(pre);
+                    if rng.chance(1, 3) {
+                        t.options = Some(Vec::new());
+                    }
+                }
                 match rng.below(4) {
                     0 => t.options = Some(rand_tcp_elements(rng)),
                     1 => {
